@@ -51,4 +51,4 @@ s = put(s, "COSTS", "\n".join(costs))
 s = put(s, "SEEDED", seeded)
 s = put(s, "MUTANTS", mut)
 open(path, "w").write(s)
-print("seeded rows:", len(rows), "mutants:", mut.count("\n"))
+print("seeded rows:", len(rows), "mutants:", max(0, mut.count("\n") - 1))
